@@ -133,6 +133,18 @@ fn exercise_model_zone(z: &crate::model::MZone) -> Result<(), String> {
     if let Ok(t) = z.to_tz() {
         fuzz_entry::exercise_zone(t.as_ref(), 64);
     }
+    // the same table with a fixed trailer equal to the last transition's type, and without trailer: both constructors, every query
+    if let Some(&(_, i)) = z.trans.last() {
+        if let Some(last) = z.types.get(i) {
+            for trailer in [crate::model::MTrailer::Fixed(last.clone()), crate::model::MTrailer::None] {
+                let mut z2 = z.clone();
+                z2.trailer = trailer;
+                if let Ok(t) = z2.to_tz() {
+                    fuzz_entry::exercise_zone(t.as_ref(), 64);
+                }
+            }
+        }
+    }
     Ok(())
 }
 
@@ -280,7 +292,7 @@ pub fn run(ctx: &Ctx) -> Outcome {
     if out.failure.is_some() {
         return out;
     }
-    let s_zone = prop_oneof![gens::arb_zone(ZoneCfg { max_trans: 12, leaps: true, wide_times: true }), gens::arb_aligned_zone()];
+    let s_zone = prop_oneof![3 => gens::arb_zone(ZoneCfg { max_trans: 12, leaps: true, wide_times: true }), 2 => gens::arb_aligned_zone(), 2 => gens::arb_leap_adjacent_zone(), 1 => gens::arb_range_edge_zone(), 1 => gens::arb_many_types_zone()];
     let cases_z = ctx.tier.pick(4_000u32, 100_000u32);
     let rs = par_shards(16, |shard, st| {
         pt_shard(ctx, "zone", 200 + shard, cases_z, &s_zone, st, |z, st| {
